@@ -779,6 +779,10 @@ class Comparator:
                 failed = spec["err"] != "None"
                 prop = "C07" if (failed and a.startswith("Update")) else ("C17" if a in ("Load", "FromFile") else "C01")
                 self.bad(prop, "history-length", m=name, expected=len(sh), got=[lo, lf], **ctx)
+                if a.startswith("UpdateAll") and min(lo, lf) < len(sh):
+                    # a bulk update took snapshots AWAY from a mineral: whatever happened to the call, this mineral no
+                    # longer evolves as the single-phase mineral it is (C08: minerals share no hidden state)
+                    self.bad("C08", "bulk-update-rewound-a-history", m=name, expected=len(sh), got=[lo, lf], **ctx)
                 continue
             for k, (s, i) in enumerate(zip(sh, ih)):
                 prop = "C17" if a in ("Load", "FromFile") else ("C01" if a == "Create" else "C08")
